@@ -321,12 +321,12 @@ pub fn build(res: &mut Reservation, lay: &Layout, want_mmap: bool) -> Built {
     Built { mmap, mmap_bases: bases, mock: MockMemory::new(mregs), mock_bases: mb }
 }
 
-fn query_layout(res: &mut Reservation, lay: &Layout, addrs: &[u64], lens: &[usize], judged: &mut u64, mock_only_if_big: bool) {
+fn query_layout(res: &mut Reservation, lay: &Layout, addrs: &[u64], lens: &[usize], judged: &mut u64, light: bool) {
     let shape = lay.shape();
     // mock storage is capped at 64 KiB per region: only use the mock backend when lengths fit
-    let mock_ok = lay.regions.iter().all(|(_, l)| *l <= (1 << 16));
+    // (light: tens of thousands of regions - the mock's linear default lookup is left out)
+    let mock_ok = lay.regions.iter().all(|(_, l)| *l <= (1 << 16)) && !light;
     let b = build(res, lay, true);
-    let _ = mock_only_if_big;
     let r = guarded(|| {
         if let Some(m) = &b.mmap {
             check_global(m, lay, "mmap");
@@ -346,7 +346,7 @@ fn query_layout(res: &mut Reservation, lay: &Layout, addrs: &[u64], lens: &[usiz
             let nr = lay.regions.len();
             for i in 0..nr {
                 // big collections: first two, middle, last two
-                if nr > 8 && ![0, 1, nr / 2, nr - 2, nr - 1].contains(&i) {
+                if (nr > 8 && ![0, 1, nr / 2, nr - 2, nr - 1].contains(&i)) || (light && i + 2 != nr) {
                     continue;
                 }
                 let (s, l) = lay.regions[i];
@@ -607,6 +607,40 @@ pub fn run(args: &Args) {
         out::count("many_region_layouts", n as i128);
     }
 
+    // (1c) region COUNTS around 2^16 (an index or a count kept in 16 bits): adjacent pairs of 2- and
+    // 3-byte regions separated by holes; addresses sampled around regions with small, middle and
+    // large indices (all of the last 80, all around index 2^16) plus random ones
+    if !args.flag("noexh") && !cfg!(miri) && !args.flag("nohugecount") {
+        let mut n = 0u64;
+        for (k, nreg) in [65_535usize, 65_536, 65_537, 65_600].into_iter().enumerate() {
+            if (k as u64) % sh_n != sh_i {
+                continue;
+            }
+            let mut r = Rng::new(args.seed(), "c02-hugecount", k as u64);
+            let mut regs = vec![];
+            let mut cur = 0x10_0000u128;
+            for i in 0..nreg {
+                let l = if i % 2 == 0 { 2 } else { 3 };
+                regs.push((cur, l));
+                cur += l + if i % 2 == 0 { 0 } else { 4 };
+            }
+            let mut idx: Vec<usize> = (0..8).chain(250..262).chain(32_760..32_776).chain(65_520..nreg.min(65_560)).chain(nreg - 80..nreg).collect();
+            idx.extend((0..200).map(|_| r.usize_below(nreg)));
+            let mut addrs: Vec<u64> = vec![0, u64::MAX, cur as u64, cur as u64 + 1];
+            for i in idx {
+                let (s, l) = regs[i];
+                addrs.extend([s as u64 - 1, s as u64, (s + l - 1) as u64, (s + l) as u64]);
+            }
+            let lens: Vec<usize> = vec![0, 1, 2, 3, 5, 6, 12, usize::MAX];
+            let lay = Layout::new(regs);
+            out::set_case(2_000_000 + n);
+            query_layout(&mut res, &lay, &addrs, &lens, &mut judged, true);
+            out::key(&format!("region-count|{}", nreg), true);
+            n += 1;
+        }
+        out::count("huge_count_layouts", n as i128);
+    }
+
     // (2) random large layouts
     for case in args.cases(300) {
         let mut r = Rng::new(args.seed(), "c02", case);
@@ -673,7 +707,7 @@ pub fn run(args: &Args) {
             lens.push(edge_usize(&mut r, l as usize, 0).0);
         }
         out::case(case, jobj! {"regions" => regs.len(), "shape" => lay.shape()});
-        query_layout(&mut res, &lay, &addrs, &lens, &mut judged, true);
+        query_layout(&mut res, &lay, &addrs, &lens, &mut judged, false);
         if out::want_sample() && case % 7 == 0 {
             out::sample(jobj! {"kind" => "random-layout", "regions" => J::A(regs.iter().map(|(s, l)| J::S(format!("{:#x}+{:#x}", s, l))).collect()), "addresses" => addrs.iter().take(6).map(|a| format!("{:#x}", a)).collect::<Vec<String>>(), "lens" => lens.iter().take(8).map(|a| format!("{:#x}", a)).collect::<Vec<String>>()});
         }
